@@ -29,9 +29,11 @@ import io
 import json
 import logging
 import os
+import re
 import tempfile
 import warnings
 import xml.etree.ElementTree as ET
+from xml.sax.saxutils import quoteattr as _sax_quoteattr
 
 import core  # noqa: F401
 from rdflib import BNode, Graph, Literal, URIRef, Variable
@@ -52,15 +54,19 @@ RULE = ("random result tables (0-4 variables, 0-8 rows, any pattern of unbound c
         "leading/trailing unbound columns; terms of every kind from a pool with control characters, quotes, "
         "backslashes, tabs, line ends, U+0085/U+2028, non-BMP) built directly as Result objects or by a real "
         "graph.query(), and both ASK answers; serialised and parsed back in JSON, XML, CSV, and rendered as TSV "
-        "under 3 choice streams; non-trivial = a SELECT table with at least one bound and one unbound cell; "
+        "under 3 choice streams; text level: every string token of the JSON / XML documents and the whole CSV document rdflib writes, "
+        "plus foreign and malformed tokens / renderings / texts, through the Lean readers and the real ones; non-trivial = a SELECT table with at least one bound and one unbound cell; "
         "distinct = distinct (vars, rows, choices)")
 ASSUMPTIONS = ["terms are fixed points of rdflib's literal normalisation (what rdflib hands out by default, C09)",
                "IRIs, blank node labels, language tags and variable names are syntactically legal (non-empty, "
                "IRIREF / BLANK_NODE_LABEL / LANGTAG / VARNAME); no lone surrogates",
-               "byte level of json, expat/ElementTree and csv is exercised here but not modelled, except XML "
-               "end-of-line normalisation and the XML 1.0 Char range"]
+               "since round g the character level is modelled (JSON string escaping / scanning, csv quoting / reader state machine, XML "
+               "character-data and attribute-value escaping / reading); document syntax around the strings (JSON punctuation, XML markup) and "
+               "byte encodings are exercised here but not modelled"]
 TRUSTED = ["harness/c16.py generators, canonicalisation and reference TSV writer (tied to Lean Spec.Tsv.render on "
-           "every case)", "lean/RV/C16/Drive.lean line protocol", "Python json / csv / xml.etree / expat"]
+           "every case)", "lean/RV/C16/Drive.lean line protocol",
+           "Python json / csv / xml.etree / expat around and below the modelled string level (JSON punctuation, XML markup, byte encodings)",
+           "the harness' tokenisers of JSON and XML documents (regex; a mis-tokenisation shows as a divergence, never hides one)"]
 
 SPARQL_NS = "http://www.w3.org/2005/sparql-results#"
 XML_NS = "http://www.w3.org/XML/1998/namespace"
@@ -284,6 +290,11 @@ def gen_case(rng, tier, i):
         case["hist"] = []
         case["mhist"] = mh
     case["pre"] = rng.choice([None, None, "json", "xml", "csv"])   # an extra serialisation before the observed ones
+    case["jx"] = rand_json_tokens(rng, case_strings(case))         # foreign / malformed JSON string tokens for the reader
+    pq = rng.choice([0.0, 0.3, 1.0])                                # CSV reference writer: quote without need, LF line ends
+    case["cq"] = [int(rng.random() < 0.4), [[int(rng.random() < pq) for _ in range(nv)] for _ in range(len(rows) + 1)]]
+    case["cx"] = rand_csv_texts(rng)                               # arbitrary short texts for the CSV reader
+    case["xx"] = rand_xml_tokens(rng, case_strings(case))          # foreign / malformed XML character data and attribute values
     return case
 
 
@@ -613,6 +624,397 @@ def tsv_render(vars_, rows, chs):
 
 def enc_choices(chs):
     return " ".join("%d:%d:%s" % (c[0], c[1], ".".join(map(str, c[2])) if c[2] else "-") for cr in chs for c in cr)
+
+
+# ------------------------------------------------------------------ text level (round g): JSON string tokens
+
+_JSTR = re.compile(r'"(?:[^"\\]|\\.)*"', re.S)
+
+
+def json_raw_tokens(text):
+    """the string tokens of a JSON document as they are spelled, quotes included, in document order"""
+    return _JSTR.findall(text)
+
+
+def json_walk_strings(x, out=None):
+    """the strings `json.loads` built — keys and values — in document order"""
+    out = [] if out is None else out
+    if isinstance(x, str):
+        out.append(x)
+    elif isinstance(x, list):
+        for y in x:
+            json_walk_strings(y, out)
+    elif isinstance(x, dict):
+        for k, v in x.items():
+            out.append(k)
+            json_walk_strings(v, out)
+    return out
+
+
+_JSHORT = {"\\": "\\\\", '"': '\\"', "\b": "\\b", "\f": "\\f", "\n": "\\n", "\r": "\\r", "\t": "\\t"}
+
+
+def _ju(c, lower):
+    o = ord(c)
+    f = (lambda n: "\\u%04x" % n) if lower else (lambda n: "\\u%04X" % n)
+    if o < 0x10000:
+        return f(o)
+    o -= 0x10000
+    return f(0xD800 | (o >> 10)) + f(0xDC00 | (o & 0x3FF))
+
+
+def jspell_char(k, c):
+    """mirror of Lean `jsonSpellChar` (tied to it by the `jtext-spell` line of every case)"""
+    if k >= 2:
+        return _ju(c, k == 2)
+    if k == 1 and c == "/":
+        return "\\/"
+    if c in _JSHORT:
+        return _JSHORT[c]
+    return "\\u%04x" % ord(c) if ord(c) < 0x20 else c
+
+
+def derive_jchoices(tok, s):
+    """the per-character choices under which the reference writer spells `s` as `tok` (None: no such choices)"""
+    body, pos, ks = tok[1:-1], 0, []
+    for c in s:
+        for k in (0, 1, 2, 3):
+            sp = jspell_char(k, c)
+            if body.startswith(sp, pos):
+                ks.append(k)
+                pos += len(sp)
+                break
+        else:
+            return None
+    return ks if pos == len(body) and tok[:1] == '"' and tok[-1:] == '"' else None
+
+
+def py_loads_token(tok):
+    """Python's reader on one string token, in the driver's answer format"""
+    try:
+        x = json.loads(tok)
+    except ValueError:
+        return "err:ValueError"
+    if not isinstance(x, str):
+        return "err:Other"
+    if any(0xD800 <= ord(c) <= 0xDFFF for c in x):
+        return "err:Unmodelled"
+    return "ok:" + enc_str(x)
+
+
+def case_strings(case):
+    """every string of the table: variable names, lexical forms / IRIs / labels, datatypes, language tags"""
+    if case["kind"] != "select":
+        return []
+    return list(case["vars"]) + [x for r in case["rows"] for t in r if t for x in t[1:]]
+
+
+def rand_json_tokens(rng, strings):
+    """foreign spellings of the table's strings (any RFC 8259 choice per character, mixed-case hex) and, for a third
+    of them, malformed tokens: truncated escapes, raw control characters, unknown escapes, lone / reversed surrogates"""
+    out = []
+    for _ in range(rng.choice([0, 1, 2, 3])):
+        s = rng.choice(strings) if strings and rng.random() < 0.7 else rng.choice(SPECIAL + PLAIN + ENCODING_PROBES + ["/", "a/b"])
+        mode = rng.choice([0, 1, 2, 3, 4, 4, 4])
+        body = "".join(jspell_char(rng.randint(0, 3) if mode == 4 else mode, c) for c in s)
+        r = rng.random()
+        if r < 0.10:
+            body = re.sub(r"\\u([0-9a-fA-F]{4})", lambda m: "\\u" + "".join(rng.choice([ch.lower(), ch.upper()]) for ch in m.group(1)), body)
+        elif r < 0.40:
+            j = rng.randint(0, len(body))
+            body = body[:j] + rng.choice(["\\ud83d", "\\ude00", "\\ude00\\ud83d", "\\ud83d\\u0041", "\\ud83d\\u12", "\\x41", "\\u12", "\\u00g1",
+                                          "\\", "\x01", "\n", "\\ud83d\\", "\\uD83D\\uDE00", "\\ud83dx", '"', "\\U0001F600", "\\a", "\\u+123",
+                                          "\\udbff\\udfff", "\\ud800\\udc00", "\\ud7ff", "\\ue000", "\x7f", "\x1f"]) + body[j:]
+        elif r < 0.45 and body:
+            body = body[:rng.randrange(len(body))]
+        out.append('"' + body + '"')
+    return out
+
+
+def csv_field_table(case):
+    """the field table rdflib's CSV writer hands to `csv.writer`: header, then one field per cell"""
+    return [list(case["vars"])] + [["" if t is None else ("_:" + t[1] if t[0] == "B" else t[1]) for t in r] for r in case["rows"]]
+
+
+def csv_render(table, qss, lf):
+    """mirror of Lean `csvRender` (RFC 4180 reference writer: fields quoted without need, LF or CR LF), tied to it by the
+    `ctext-render` line"""
+    out = []
+    for i, row in enumerate(table):
+        if row == [""]:
+            s = '""'
+        else:
+            s = ",".join(('"' + f.replace('"', '""') + '"') if ((qss[i][j] if i < len(qss) and j < len(qss[i]) else 0)
+                                                                 or any(c in ',"\r\n' for c in f)) else f
+                         for j, f in enumerate(row))
+        out.append(s + ("\n" if lf else "\r\n"))
+    return "".join(out)
+
+
+def py_csv_parse(text):
+    try:
+        return "ok " + table_tokens(list(csv.reader(io.StringIO(text, newline=""), delimiter=",")))
+    except Exception as e:  # noqa: BLE001
+        return err_name(e)
+
+
+def rand_csv_texts(rng):
+    """short arbitrary texts for the reader's state machine: stray quotes, bare CR, text after a closing quote, no final line end"""
+    out = []
+    for _ in range(rng.choice([0, 1, 1, 2])):
+        out.append("".join(rng.choice(['a', 'b', '"', '"', ',', ',', '\r', '\n', '\r\n', ' ', 'é', '""'])
+                           for _ in range(rng.choice([0, 1, 2, 3, 4, 6, 8, 12]))))
+    return out
+
+
+_XTAG = re.compile(r"<([^<>]*)>([^<]*)")
+_XATTRTOK = re.compile(r"""\s([A-Za-z_][\w:.-]*)=("[^"]*"|'[^']*')""")
+_TERM_TAGS = ("uri", "bnode", "literal", "boolean")
+
+
+def xml_raw_tokens(doc):
+    """(attribute values as spelled, quotes included; character data of term elements as spelled), document order"""
+    body = doc[doc.index("?>") + 2:] if doc.startswith("<?xml") else doc
+    attrs, texts = [], []
+    for m in _XTAG.finditer(body):
+        tag, text = m.group(1), m.group(2)
+        if tag[:1] in ("/", "?", "!"):
+            continue
+        attrs += [a.group(2) for a in _XATTRTOK.finditer(tag) if not a.group(1).startswith("xmlns")]
+        if re.split(r"[\s/]", tag, 1)[0] in _TERM_TAGS:
+            texts.append(text)
+    return attrs, texts
+
+
+def xml_decoded(doc_bytes):
+    """the same strings as ElementTree / expat deliver them"""
+    root = ET.fromstring(doc_bytes)
+    attrs = [v for el in root.iter() for v in el.attrib.values()]
+    texts = [el.text or "" for el in root.iter() if _tagname(el.tag) in _TERM_TAGS]
+    return attrs, texts
+
+
+def xml_doc_strings(case):
+    """(attribute strings, text strings) of the table in the order a SPARQL XML document holds them"""
+    attrs, texts = list(case["vars"]), []
+    for row in case["rows"]:
+        for v, t in zip(case["vars"], row):
+            if t is not None:
+                attrs.append(v)
+                if t[0] in "TL":
+                    attrs.append(t[2])
+                texts.append(t[1])
+    return attrs, texts
+
+
+def xml_assemble(case, attrs, texts):
+    """a SPARQL XML document whose every attribute value and character data is spelled by the Lean writer model"""
+    ai, ti = iter(attrs), iter(texts)
+    out = ['<?xml version="1.0" encoding="utf-8"?>\n<sparql xmlns="%s" xmlns:xml="%s"><head>' % (SPARQL_NS, XML_NS)]
+    for _v in case["vars"]:
+        out.append("<variable name=%s></variable>" % next(ai))
+    out.append("</head><results>")
+    for row in case["rows"]:
+        out.append("<result>")
+        for _v, t in zip(case["vars"], row):
+            if t is None:
+                continue
+            out.append("<binding name=%s>" % next(ai))
+            if t[0] == "I":
+                out.append("<uri>%s</uri>" % next(ti))
+            elif t[0] == "B":
+                out.append("<bnode>%s</bnode>" % next(ti))
+            elif t[0] == "P":
+                out.append("<literal>%s</literal>" % next(ti))
+            elif t[0] == "T":
+                out.append("<literal datatype=%s>%s</literal>" % (next(ai), next(ti)))
+            else:
+                out.append("<literal xml:lang=%s>%s</literal>" % (next(ai), next(ti)))
+            out.append("</binding>")
+        out.append("</result>")
+    out.append("</results></sparql>")
+    return "".join(out)
+
+
+def py_xml_token(kind, raw):
+    """expat / ElementTree on one spelled token: character data of an element ('t') or a quoted attribute value ('a')"""
+    doc = ("<a>%s</a>" % raw) if kind == "t" else ("<a b=%s/>" % raw)
+    try:
+        el = ET.fromstring(doc.encode("utf-8"))
+    except ET.ParseError:
+        return "err:ParseError"
+    except Exception as e:  # noqa: BLE001
+        return err_name(e)
+    if kind == "t":
+        return "ok:" + enc_str(el.text or "") if len(el) == 0 else "err:Other"
+    return "ok:" + enc_str(el.get("b")) if set(el.attrib) == {"b"} else "err:Other"
+
+
+_XNAMED = {"&": "&amp;", "<": "&lt;", ">": "&gt;", '"': "&quot;", "'": "&apos;"}
+_XBAD = ["&bogus;", "&#0;", "&#xD800;", "&#xFFFE;", "]]>", "&", "&#;", "&#x;", "&#X41;", "&#1a;", "&amp", "\r", "\r\n", "\n", "\t",
+         "&#x1F600;", "&#128512;", "&#13;", "&#10;", "&#13;\n", "]]", "]]&gt;", "]>", "]]]>", "&#1114112;", "\x01", "\ufffe", "&#x1f;", "&#9;", "&apos;", "&quot;",
+         ";", "&#xd;", "&#x00041;", "&#00065;", "&lt;&gt;", "\x7f", "\x85", "\u2028"]
+
+
+def rand_xml_tokens(rng, strings):
+    """foreign spellings of the table's strings (raw / named / decimal / hexadecimal references per character) and malformed
+    tokens, as character data ('t') or attribute value ('a')"""
+    out = []
+    for _ in range(rng.choice([0, 1, 2, 3])):
+        kind = rng.choice("ta")
+        s = rng.choice(strings) if strings and rng.random() < 0.7 else rng.choice(SPECIAL + PLAIN + ENCODING_PROBES)
+        s = "".join(c for c in s if not 0xD800 <= ord(c) <= 0xDFFF)
+        q = rng.choice("\"'")
+        parts = []
+        for c in s:
+            k = rng.choice([0, 0, 0, 1, 2, 3])
+            if k == 0 and not (c == "<" or c == "&" or (kind == "a" and c == q)):
+                parts.append(c)
+            elif k <= 1 and c in _XNAMED:
+                parts.append(_XNAMED[c])
+            elif k == 3:
+                parts.append("&#x%s;" % (("%x" if rng.random() < 0.5 else "%X") % ord(c)))
+            else:
+                parts.append("&#%d;" % ord(c))
+        if rng.random() < 0.4:
+            j = rng.randint(0, len(parts))
+            parts[j:j] = [rng.choice(_XBAD + (["<"] if kind == "a" else []))]
+        body = "".join(parts)
+        out.append([kind, body if kind == "t" else q + body + q])
+    return out
+
+
+def text_level(case, st=None, want_obs=True):
+    """(driver lines, observations of the implementation) for the text level.  Computed by one function for both sides:
+    the driver lines quote rdflib's own document (as `json-of` does), the observations are what Python's reader /
+    writer make of it (`want_obs=False`: `model_lines` needs only the driver lines; the readers are not run)."""
+    lines, obs = [], []
+    st = {} if st is None else st
+    strings = case_strings(case)
+
+    def ob(f):
+        obs.append(f() if want_obs else "")
+
+    def xml_block(doc, enc_name):
+        """the two reader lines for one XML document of rdflib's"""
+        rattrs, rtexts = xml_raw_tokens(doc.decode(enc_name))
+        lines.append(" ".join(["xattr-read"] + [enc_str(x) for x in rattrs]))
+        lines.append(" ".join(["xtext-read"] + [enc_str(x) for x in rtexts]))
+        if not want_obs:
+            obs.extend(["", ""])
+            return rattrs, rtexts
+        try:
+            dattrs, dtexts = xml_decoded(doc)
+            obs.append(" ".join(["="] + ["ok:" + enc_str(x) for x in dattrs]))
+            obs.append(" ".join(["="] + ["ok:" + enc_str(x) for x in dtexts]))
+        except ET.ParseError:
+            # the document is not well-formed (C16-K1): token by token, the Lean reader must refuse what expat refuses
+            obs.append(" ".join(["="] + [py_xml_token("a", x) for x in rattrs]))
+            obs.append(" ".join(["="] + [py_xml_token("t", x) for x in rtexts]))
+            st["xtext_docs_not_wellformed"] = st.get("xtext_docs_not_wellformed", 0) + (1 if enc_name == "utf-8" else 0)
+        return rattrs, rtexts
+
+    try:
+        doc = build_result(case, "direct").serialize(format="json").decode("utf-8")
+        toks = json_raw_tokens(doc)
+        loaded = json_walk_strings(json.loads(doc))
+    except Exception as e:  # noqa: BLE001
+        lines += ["const " + err_name(e)] * 2
+        obs += [err_name(e)] * 2
+    else:
+        extra = list(case.get("jx", []))
+        # reader: Lean `jsonLoadsStr` on every string token rdflib wrote (+ foreign / malformed tokens) == json.loads
+        lines.append(" ".join(["jstr-loads"] + [enc_str(t) for t in toks + extra]))
+        ob(lambda: " ".join(["="] + ["ok:" + enc_str(x) for x in loaded] + [py_loads_token(t) for t in extra]))
+        # writer: rdflib's spelling of each string is a spelling of the reference writer (choices read off the document)
+        chs = [derive_jchoices(t, x) for t, x in zip(toks, loaded)] if len(toks) == len(loaded) else []
+        lines.append(" ".join(["jstr-spell"] + [enc_str(x) + "/" + (".".join(map(str, ks)) if ks else "-" if ks is not None else "9")
+                                                for x, ks in zip(loaded, chs)]))
+        ob(lambda: " ".join(["="] + [enc_str(t) for t in toks]))
+        if want_obs:
+            st["jtext_tokens"] = len(toks)
+            st["jtext_doc_minimal_spelling"] = int(all(ks is not None and not any(ks) for ks in chs))
+            st["jtext_foreign_tokens"] = len(extra)
+            st["jtext_foreign_errors"] = sum(1 for t in extra if py_loads_token(t).startswith("err"))
+    # Python's two string encoders on every string of the table
+    for a in (0, 1):
+        lines.append(" ".join(["jstr-dumps", str(a)] + [enc_str(x) for x in strings]))
+        ob(lambda: " ".join(["="] + [enc_str(json.dumps(x, ensure_ascii=bool(a))) for x in strings]))
+    if case["kind"] != "select":
+        return lines, obs
+    # ---- CSV text: rdflib's document read by the Lean reader; the Lean writer's document read by rdflib
+    try:
+        cdoc = build_result(case, "direct").serialize(format="csv").decode("utf-8")
+    except Exception as e:  # noqa: BLE001
+        lines += ["const " + err_name(e)] * 2
+        obs += [err_name(e)] * 2
+    else:
+        own = parse_canon(cdoc.encode("utf-8"), "csv", "bytes") if want_obs else ""
+        lines.append("ctext-of " + enc_str(cdoc))
+        obs.append(own)
+        lines.append("ctext-write " + enc_case_result(case))      # completed in select_model_obs
+        obs.append(own)
+        st["ctext_quoted_fields"] = int(cdoc.count('"') - 2 * cdoc.count('""') > 0)
+    if "cq" in case:
+        lf, qss = case["cq"]
+        table = csv_field_table(case)
+        text = csv_render(table, qss, lf)
+        lines.append(" ".join(["ctext-render", str(int(bool(lf))), str(len(table))] + [
+            w for i, row in enumerate(table) for w in [str(len(row))] + [
+                "%d:%s" % ((qss[i][j] if i < len(qss) and j < len(qss[i]) else 0), enc_str(f)) for j, f in enumerate(row)]]))
+        obs.append("= " + enc_str(text))
+        lines.append("ctext-of " + enc_str(text))
+        ob(lambda: parse_canon(text.encode("utf-8"), "csv", case["src"] if case["src"] in ("bytes", "text") else "bytes"))
+        st["ctext_foreign_docs"] = 1
+        st["ctext_foreign_lf"] = int(bool(lf))
+    for t in case.get("cx", []):
+        lines.append("ctext-parse " + enc_str(t))
+        ob(lambda: py_csv_parse(t))
+        st["ctext_arbitrary_texts"] = st.get("ctext_arbitrary_texts", 0) + 1
+    # ---- XML text: the strings of rdflib's document as spelled, read by the Lean reader == as expat delivers them
+    wattrs, wtexts = xml_doc_strings(case)
+    try:
+        xdoc = build_result(case, "direct").serialize(format="xml")
+        xdoc.decode("utf-8")
+    except Exception as e:  # noqa: BLE001
+        lines += ["const " + err_name(e)] * 4
+        obs += [err_name(e)] * 4
+    else:
+        rattrs, rtexts = xml_block(xdoc, "utf-8")
+        st["xtext_tokens"] = len(rattrs) + len(rtexts)
+        # writer: a document assembled from the Lean writer's spellings, read by rdflib (completed in select_model_obs)
+        lines.append(" ".join(["xdoc-attrs"] + [enc_str(x) for x in wattrs]))
+        lines.append(" ".join(["xdoc-texts"] + [enc_str(x) for x in wtexts]))
+        obs.append("(see next line)")
+        ob(lambda: parse_canon(xdoc, "xml", "bytes"))
+    # ---- the same under `encoding="ascii"`: every character the encoding lacks is a decimal character reference
+    try:
+        adoc = build_result(case, "direct").serialize(format="xml", encoding="ascii")
+        adoc.decode("ascii")
+    except Exception as e:  # noqa: BLE001
+        lines += ["const " + err_name(e)] * 4
+        obs += [err_name(e)] * 4
+    else:
+        rattrs, rtexts = xml_block(adoc, "ascii")
+        # attribute values: quoteattr, then the codec's xmlcharrefreplace (attributes under an encoding are not modelled)
+        lines.append("echo XATTR " + " ".join(enc_str(_sax_quoteattr(x).encode("ascii", "xmlcharrefreplace").decode("ascii")) for x in wattrs))
+        lines.append(" ".join(["xdoc-texts-ascii"] + [enc_str(x) for x in wtexts]))
+        obs.append("(see next line)")
+        ob(lambda: parse_canon(adoc, "xml", "bytes"))
+        st["xtext_ascii_charrefs"] = sum(t.count("&#") for t in rtexts)
+    # `quoteattr` itself (the standard library function rdflib's writer relies on)
+    lines.append(" ".join(["xattr-write"] + [enc_str(x) for x in wattrs]))
+    ob(lambda: " ".join(["="] + [enc_str(_sax_quoteattr(x)) for x in wattrs]))
+    xx = case.get("xx", [])
+    if xx:
+        lines.append(" ".join(["xattr-read"] + [enc_str(r) for k, r in xx if k == "a"]))
+        ob(lambda: " ".join(["="] + [py_xml_token(k, r) for k, r in xx if k == "a"]))
+        lines.append(" ".join(["xtext-read"] + [enc_str(r) for k, r in xx if k == "t"]))
+        ob(lambda: " ".join(["="] + [py_xml_token(k, r) for k, r in xx if k == "t"]))
+        if want_obs:
+            st["xtext_foreign_tokens"] = len(xx)
+            st["xtext_foreign_errors"] = sum(1 for k, r in xx if py_xml_token(k, r).startswith("err"))
+    return lines, obs
 
 
 # ------------------------------------------------------------------ the implementation under test
@@ -986,6 +1388,7 @@ def run_impl(case):
             st["hist_pre_serialisation"] = int(bool(case.get("pre")))
     else:
         nontrivial = False
+    obs += text_level(case, st)[1]
     return {"obs": obs, "viol": viol + xviol, "nontrivial": nontrivial,
             "key": json.dumps([case.get("vars"), case.get("rows"), case.get("tsv"), case.get("value")], sort_keys=True),
             "stats": st}
@@ -1030,6 +1433,7 @@ def model_lines(case):
             else:
                 ops = " ".join("k%d" % o[1] if o[0] == "take" else "f" for o in case["hist"])
                 lines.append(("hist " + lazy + " " + r + " | " + ops).rstrip())
+    lines += text_level(case, want_obs=False)[0]
     return lines
 
 
@@ -1048,6 +1452,14 @@ def select_model_obs(case, out):
             buf = io.StringIO(newline="")
             csv.writer(buf).writerows(table_untokens(out[8]))
             out[8] = parse_canon(buf.getvalue().encode("utf-8"), "csv", src)
+        for i, l in enumerate(out):
+            if l.startswith("CTEXT "):     # the Lean CSV writer's document, read by rdflib
+                out[i] = parse_canon(dec_str(l[6:]).encode("utf-8"), "csv", "bytes")
+            elif l.startswith("XATTR") and i + 1 < len(out) and out[i + 1].startswith("XTEXT"):
+                # a document assembled from the Lean XML writer's spellings, read by rdflib
+                doc = xml_assemble(case, [dec_str(w) for w in l.split(" ")[1:]], [dec_str(w) for w in out[i + 1].split(" ")[1:]])
+                out[i] = "(see next line)"
+                out[i + 1] = parse_canon(doc.encode("utf-8"), "xml", "bytes")
     except Exception as e:  # noqa: BLE001
         out.append("harness-error in select_model_obs: %r" % (e,))
     return out
